@@ -693,7 +693,8 @@ impl<'p> Emitter<'p> {
                 self.use_as(f, target, rec.is_some() && clean, Role::FieldAccess);
             }
             E::List(xs) => {
-                self.w("[");
+                // `[{` would open a code fragment
+                self.w(if matches!(xs.first(), Some(E::Bits(_))) { "[ " } else { "[" });
                 for (i, x) in xs.iter().enumerate() {
                     if i > 0 {
                         self.w(", ");
